@@ -169,7 +169,32 @@ def describe(core, asms, area_ref, oftf_truth=None):
                         if x == i + 1]
                 if not back or abs(L[i, jj] - L[j - 1, back[0]]) > 1e-12:
                     lsym = 0
+    # a cell shared by two or three assemblies has the same duct-facing
+    # width from every side, and an edge cell the smaller of the pin pitches
+    # of the assemblies it lies between
+    shared_ok = 1
+    wp = core.gap_params['asm wp']
+    seen = {}
+    for a in range(len(asms)):
+        n = int(np.count_nonzero(adj[a]))
+        for j in range(n):
+            seen.setdefault(int(adj[a, j]), []).append(
+                (a, float(wp[a, j]), int(core._asm_sc_types[a][j])))
+    for cid, lst in seen.items():
+        if len(lst) < 2:
+            continue
+        ws = [w for (_, w, _) in lst]
+        # (corner cells face every assembly over that assembly's own corner
+        # width; edge cells are the same segment of the shared side)
+        if all(t == 0 for (_, _, t) in lst):
+            if max(ws) - min(ws) > 1e-12:
+                shared_ok = 0
+            pits = [asms[a_].rodded.pin_pitch for (a_, _, _) in lst
+                    if asms[a_].has_rodded]
+            if len(pits) == len(lst) and abs(ws[0] - min(pits)) > 1e-12:
+                shared_ok = 0
     ev.append({'e': 'Geom', 'perim': perim, 'area': q(area, ascale),
+               'sharedOK': shared_ok,
                'areaRef': q(area_ref if area_ref is not None else area,
                             ascale),
                'split': split, 'tol': 4,
